@@ -45,6 +45,8 @@ type Monitors struct {
 	// tick number since which a task has been in state init without interruption
 	initSince map[string]int
 	alsoProp  string
+	// tick number of the last counted (failed) hand-off attempt per task
+	attemptTick map[string]int
 	// every version of every task row: (event, state, counter)
 	taskHist map[string][]taskVer
 }
@@ -57,7 +59,7 @@ type taskVer struct {
 
 func NewMonitors(s *Sim) *Monitors {
 	m := &Monitors{s: s, routerFailed: map[string]bool{}, claimed: map[string]string{}, sends: map[string][]*SentMsg{},
-		completedAt: map[string]int64{}, deletedAck: map[string]int64{}, passedOver: map[string]int{}, fired: map[string]int{}, hits: map[string]int{}, regions: map[string]bool{}, guar: map[string]int64{}, selected: map[string]int{}, opRows: map[string]int64{}, initSince: map[string]int{}, taskHist: map[string][]taskVer{}}
+		completedAt: map[string]int64{}, deletedAck: map[string]int64{}, passedOver: map[string]int{}, fired: map[string]int{}, hits: map[string]int{}, regions: map[string]bool{}, guar: map[string]int64{}, selected: map[string]int{}, opRows: map[string]int64{}, initSince: map[string]int{}, taskHist: map[string][]taskVer{}, attemptTick: map[string]int{}}
 	found := false
 	for _, src := range s.cfg.Sources {
 		if src.Name == "default" {
@@ -497,6 +499,7 @@ func (m *Monitors) checkTasks(prev *vh.Snapshot, bi *BatchInfo, next *vh.Snapsho
 		case t0.State == 8 || t0.State == 16:
 			m.violate("C07,C02", "row:finished-task-changed", fmt.Sprintf("finished task changed: %s -> %s", t0, t1))
 		case t0.State == 1 && t1.State == 1:
+			m.attemptTick[id] = m.s.tickNo
 			// failed hand-off: attempt+1, expiresAt moved
 			if t1.Counter != t0.Counter || t1.Attempt != t0.Attempt+1 || t1.ProcessId != nil {
 				m.violate("C08", "row:init-rewrite", fmt.Sprintf("init task rewritten illegally: %s -> %s", t0, t1))
@@ -765,6 +768,20 @@ func (m *Monitors) checkLocks(prev *vh.Snapshot, bi *BatchInfo, next *vh.Snapsho
 			}
 			if rowsOf(c.res) != want {
 				m.violate("C09", "model:release-rows", fmt.Sprintf("release of %s by %s reported %d rows, holder is %v", rl.ResourceId, rl.ExecutionId, rowsOf(c.res), cur))
+			}
+			// a release that the holder did not ask for (issued on behalf of another request: a take-over of a lapsed
+			// lock) is entitled to the row only like the sweep is: the lease must have run out at this tick
+			if want == 1 && rowsOf(c.res) == 1 {
+				byHolder := false
+				if o := m.s.opById[c.tx.ReqId]; o != nil && o.Req.Kind == t_api.ReleaseLock && o.Req.ReleaseLock.ResourceId == rl.ResourceId && o.Req.ReleaseLock.ExecutionId == rl.ExecutionId {
+					byHolder = true
+				}
+				if !byHolder {
+					m.hit("lock.released-by-someone-else")
+					if cur.ExpiresAt > t {
+						m.violate("C09,C02", "model:lock-taken-while-lease-runs", fmt.Sprintf("lock %s was removed at tick %d by a release its holder did not request (%s) although its lease runs to %d", cur, t, c.tx.ReqId, cur.ExpiresAt))
+					}
+				}
 			}
 			if want == 1 {
 				m.hit("lock.released")
